@@ -22,7 +22,8 @@ Names == {s \in UNION {[1..n -> Chars] : n \in 1..MaxLen} :
 
 VARIABLES files,     \* names tracked literally (--filename)
           patterns,  \* patterns tracked as globs
-          pre,       \* class of the pre-existing .gitattributes
+          pre,       \* class of the pre-existing .gitattributes: absent / comments and macros (LF, CRLF, last line
+                     \* unterminated) / one unterminated line with or without LFS attributes; what was there keeps its meaning
           nops, hist
 vars == <<files, patterns, pre, nops, hist>>
 View == <<files, patterns, pre>>
